@@ -3,7 +3,7 @@
                             every action, joined by " | "
    online:     drv -i       one action per line on stdin ("reset" starts a new session); prints the
                             state after it and flushes
-   actions:  L:<bg>:<tc_ok>:<pid,...>:<joined bits,...>   F:<arg|->:<pick>   G:<arg|->:<pick>
+   actions:  L:<bg>:<pid,...>   F:<arg|->:<pick>   G:<arg|->:<pick>
              J  E  B  Z  C   X:<pid>:<code>   S:<pid>:<sig>
    shell pgid = 1, has_terminal = isatty = true *)
 open C07_model
@@ -22,7 +22,7 @@ let arg_of s = if s = "-" then None else Some (zi s)
 
 let action_of f =
   match String.split_on_char ':' f with
-  | ["L"; bg; tc; ps; js] -> ALaunch (ints_of ps, bg = "1", tc = "1", bits_of js)
+  | ["L"; bg; ps] -> ALaunch (ints_of ps, bg = "1")
   | ["F"; a; p] -> AFg (arg_of a, zi p)
   | ["G"; a; p] -> ABg (arg_of a, zi p)
   | ["J"] -> AJobs | ["E"] -> AEmpty | ["B"] -> ABuiltin | ["Z"] -> ACtrlZ | ["C"] -> ACtrlC
@@ -49,7 +49,7 @@ let out_str = function
 let mode_str = function
   | AtPrompt -> "P"
   | Waiting (g, _, w, v) ->
-      Printf.sprintf "W:%s:%d:%s" (iz g) (int_of_nat w) (match v with VFg -> "fg" | VLaunch true -> "vl1" | VLaunch false -> "vl0")
+      Printf.sprintf "W:%s:[%s]:%s" (iz g) (zs w) (match v with VFg -> "fg" | VLaunch true -> "vl1" | VLaunch false -> "vl0")
 let kvs l = String.concat "," (List.map (fun (a, b) -> iz a ^ "=" ^ iz b) l)
 let st_str (s : st) =
   Printf.sprintf "m=%s o=%s p=%s t=%s out=%s maps=%s/%s/%s/%s" (mode_str s.md) (iz s.owner)
